@@ -25,6 +25,9 @@ def pieces(line: str, mnemonics: set[str]) -> list[dict]:
     m = re.match(r"^([A-Za-z]{3})(\.[bwlBWL])?(?=[ \t]|$)", s)
     opcode_line = bool(m and m.group(1).lower() in mnemonics)
     pos = 0
+    # `name = value`: the first `=` of the line is the definition operator
+    assign_line = bool(re.match(r"^[A-Za-z_][A-Za-z0-9_]*[ \t]*=", s)) and not opcode_line
+    seen_asg = False
     if opcode_line:
         out.append({"t": "mn", "s": m.group(1).lower(), "u": m.group(1).upper()})
         if m.group(2):
@@ -38,6 +41,9 @@ def pieces(line: str, mnemonics: set[str]) -> list[dict]:
             out.append({"t": "hex", "s": "0x" + text[2:].lower(), "u": "0x" + text[2:].upper()})
         elif kind == "multi" and text in OPS or kind == "ch" and text in OPS:
             out.append({"t": "op", "s": text, "u": text})
+        elif kind == "multi" and text == ":=" or (kind == "ch" and text == "=" and assign_line and not seen_asg):
+            out.append({"t": "asg", "s": text, "u": text})
+            seen_asg = True
         elif kind == "ch" and text == ",":
             out.append({"t": "comma", "s": text, "u": text})
         elif kind == "ch" and text in "([" and opcode_line:
